@@ -21,6 +21,19 @@ package websocket
 //@   ensures [xor] forall k :: 0 <= k && k < len(b) ==> b[k] == old(b[k]) ^ mask[k&3]
 //@   modifies mem(b)
 
+// Declared payload length of a frame (7-bit, 16-bit or 64-bit encoding).
+//@ pred declLen(s []byte) =
+//@   (((s[1] & 127) == 127) ? (int(s[2])<<56 + int(s[3])<<48 + int(s[4])<<40 + int(s[5])<<32 + int(s[6])<<24 + int(s[7])<<16 + int(s[8])<<8 + int(s[9])) :
+//@    (((s[1] & 127) == 126) ? (int(s[2])<<8 + int(s[3])) : int(s[1] & 127)))
+
+// PayloadLength decodes the declared length (big-endian, widest first).
+//@ func (Frame).PayloadLength
+//@   prop C15, C16, C06
+//@   arith bv
+//@   requires len(f) >= 2 && len(f) >= 2 + (((f[1] & 127) == 127) ? 8 : (((f[1] & 127) == 126) ? 2 : 0))
+//@   ensures [decoded] result == declLen(f)
+//@   modifies nothing
+
 //@ func (*Frame).setPayloadLength
 //@   prop C16
 //@   arith bv
@@ -46,6 +59,8 @@ package websocket
 //@   ensures [exact-length] len(*f) == off + len(b) && result == f && heapslice(*f) && cap(*f) <= 1<<46
 //@   ensures [payload] forall k :: 0 <= k && k < len(b) ==> (*f)[off + k] == old(b[k])
 //@   ensures [first-byte] (*f)[0] == old((*f)[0]) && ((*f)[1] & 128 != 0) == masked
+//@   // writes stay inside the frame's old backing array (or go to a newly allocated one)
+//@   ensures [frame-only] unchanged_except(old((*f)[0:cap(*f)]))
 //@   ensures [short] len(b) <= 125 ==> int((*f)[1] & 127) == len(b)
 //@   ensures [medium] 125 < len(b) && len(b) <= 65535 ==> (*f)[1] & 127 == 126 && int((*f)[2])<<8 + int((*f)[3]) == len(b)
 //@   ensures [long] len(b) > 65535 ==> (*f)[1] & 127 == 127 &&
